@@ -45,6 +45,23 @@ def per (toks : List String) : String :=
       let rd := match Spec.Strict.derInt w "INTEGER" with | .ok (v, []) => toString v | _ => "E"
       "w=" ++ toHex w ++ " r=" ++ rd ++ "\t" ++ "w=* r=" ++ toString n
     | none => "bad-case"
+  | ["per_asn1_enum", sgn, mag] =>
+    -- ENUMERATED (X.690 8.4): minimal two's complement content under tag 0x0A, any value of an i64
+    match mag.toNat? with
+    | some m =>
+      let v : Int := if sgn = "-" then -(m : Int) else (m : Int)
+      -- smallest k with -2^(8k-1) ≤ v < 2^(8k-1)
+      let rec width (fuel k : Nat) : Nat :=
+        match fuel with
+        | 0 => k
+        | fuel + 1 => if -((2 : Int) ^ (8 * k - 1)) ≤ v ∧ v < (2 : Int) ^ (8 * k - 1) then k else width fuel (k + 1)
+      let k := width 9 1
+      let u : Nat := (v % ((2 : Int) ^ (8 * k))).toNat
+      let content : Bytes := (List.range k).map fun i => UInt8.ofNat (u / 256 ^ (k - 1 - i) % 256)
+      let w : Bytes := [0x0a, UInt8.ofNat k] ++ content
+      let shown := (if sgn = "-" ∧ m ≠ 0 then "-" else "") ++ toString m
+      "w=" ++ toHex w ++ " r=" ++ shown ++ "\t" ++ "w=" ++ toHex w ++ " r=" ++ shown
+    | none => "bad-case"
   | ["per_asn1_oct", hx] =>
     match ofHex hx with
     | some b =>
